@@ -676,6 +676,18 @@ def _huber_loss(a, b, reduction="mean", delta=1.0):
 FN["huber_loss"] = _huber_loss
 
 
+def _one_hot(t, num_classes=-1):
+    """F.one_hot(t, C): out[..., c] = 1 iff t[...] == c (integer tensor); the WF obligation: 0 <= t < C."""
+    if isinstance(num_classes, int) and num_classes < 0:
+        raise Unsupported("one_hot with inferred num_classes (data-dependent shape)")
+    s_ = t.snap()
+    ops.wf_forall(tuple(t.shape), lambda I: z3.And(zint(s_(I)) >= 0, zint(s_(I)) < zint(num_classes)), "one_hot-class-in-range")
+    return mk(tuple(t.shape) + (num_classes,), "i", lambda I: z3.If(zint(s_(tuple(I[:-1]))) == zint(I[-1]), 1, 0))
+
+
+FN["one_hot"] = _one_hot
+
+
 # ---- split / flip / random sources
 def _split(t, size, dim=0):
     d = norm_dim(dim, t.rank)
@@ -789,6 +801,7 @@ def _rand(*size, **kw):
 
 
 TF["rand"] = _rand
+TF["rand_like"] = lambda t, **kw: _rand(*t.shape)
 
 
 def _randint(*args, size=None, **kw):
@@ -798,7 +811,10 @@ def _randint(*args, size=None, **kw):
     args = list(args)
     if size is None:
         size = args.pop()
-    low, high = (0, args[0]) if len(args) == 1 else (args[0], args[1])
+    if "high" in kw:
+        low, high = kw.pop("low", args[0] if args else 0), kw.pop("high")
+    else:
+        low, high = (0, args[0]) if len(args) == 1 else (args[0], args[1])
     shape = ops._shape_args((tuple(size),))
     _RAND[0] += 1
     t = input_tensor(f"randint{_RAND[0]}", shape, "i")
@@ -835,6 +851,27 @@ def _cdist(x1, x2, p=2, **kw):
 
 
 TF["cdist"] = _cdist
+
+_ROUND = [0]
+
+
+def _round(t, decimals=0, **kw):
+    """torch.round: an integer-valued result within 1/2 of the argument (the tie-breaking rule - half to even - is left open)."""
+    if decimals != 0:
+        raise Unsupported("round with decimals")
+    if t.dtype != "f":
+        return t
+    from .core import input_tensor
+
+    _ROUND[0] += 1
+    r = input_tensor(f"round{_ROUND[0]}", tuple(t.shape), "f")
+    rs, xs = r.snap(), t.snap()
+    ops.assume_forall(tuple(t.shape), lambda I: z3.And(z3.ToReal(z3.ToInt(rs(I))) == rs(I), rs(I) - xs(I) <= zreal(1) / 2, xs(I) - rs(I) <= zreal(1) / 2))
+    return r
+
+
+TM["round"] = _round
+TF["round"] = _round
 
 
 def _uniform_(t, a=0, b=1, **kw):
